@@ -30,6 +30,7 @@ type rq struct {
 	Class  string // "", unknown-method, header-too-large, body-too-large, bad-request-line
 	Line   string // raw request line override (bad-request-line)
 	Expect int    // status the class maps to
+	Word   string // a word of fasthttp's / fiber's error vocabulary planted in the request bytes
 	Shape  []string
 	chunks []int
 }
@@ -718,7 +719,7 @@ func (g *genCtx) hdrLen(q *rq) int {
 func (g *genCtx) classRequest(rid string) *rq {
 	r := g.r
 	q := &rq{Rid: rid, Proto: "HTTP/1.1", Method: "GET", Target: "/ks?rid=" + rid + "&op=0", Hdr: []hf{{"Host", "example.com"}}, NoLen: true}
-	kinds := []string{"unknown-method", "bad-request-line", "header-too-large"}
+	kinds := []string{"unknown-method", "bad-request-line", "bad-header", "header-too-large", "header-too-large"}
 	if g.blimit > 0 && g.blimit <= 4096 {
 		kinds = append(kinds, "body-too-large", "body-too-large")
 	}
@@ -749,9 +750,19 @@ func (g *genCtx) classRequest(rid string) *rq {
 		q.Line = gen.Pick(r, []string{"GARBAGE", "GET", "GET /ks", "G(T /ks HTTP/1.1", "GET /ks HTTP/1.x", "GET /ks HTTX/1.1", "GET /ks HTTP/11", "GET  HTTP/1.1",
 			" /ks HTTP/1.1", "GET /ks HTTP/1.1 ", "GET /ks http/1.1", "GET /ks HTTP/1", "G\x00T /ks HTTP/1.1", "GET /ks HTTP/1.1.1", "@ /ks HTTP/1.1x"})
 		q.Expect = 400
+	case "bad-header":
+		q.Method = gen.Pick(r, []string{"GET", "POST"})
+		q.Hdr = append(q.Hdr, gen.Pick(r, []hf{{"", "novalue"}, {"X(A)", "v"}, {"X-A", "a\x00b"}, {"X-A", "a\x01b"}, {"Content-Length", "abc"}, {"Content-Length", "-5"}, {"X[]", ""}}))
+		q.Expect = 400
 	case "header-too-large":
 		pad := g.rbuf + 100 + r.Intn(400)
-		switch r.Intn(3) {
+		switch r.Intn(4) {
+		case 3:
+			// the padding itself is made of vocabulary words (they end up at the end of the
+			// read buffer, which the error text quotes)
+			w := gen.Pick(r, mapWords)
+			q.Word = w
+			q.Hdr = append(q.Hdr, hf{"X-Pad", strings.Repeat(w+" ", pad/(len(w)+1)+1)})
 		case 0:
 			q.Hdr = append(q.Hdr, hf{"X-Pad", strings.Repeat("p", pad)})
 		case 1:
@@ -769,7 +780,67 @@ func (g *genCtx) classRequest(rid string) *rq {
 		q.Chunk = r.Chance(1, 3)
 		q.Expect = 413
 	}
+	if r.Chance(1, 2) {
+		g.plantWord(q)
+	}
 	return q
+}
+
+// mapWords are words of the error vocabulary of fasthttp and fiber. The status a malformed or
+// oversized request maps to is decided by what is wrong with its bytes, never by words in them.
+var mapWords = []string{"timeout", "Timeout", "i/o timeout", "timeout=5, max=100", "body size exceeds the given limit", "too large", "unsupported",
+	"cannot find", "error when reading request headers", "small read buffer", "EOF", "connection reset by peer", "broken pipe", "GetOnly", "non-GET"}
+
+func wordSlug(w string) string {
+	var sb strings.Builder
+	for i := 0; i < len(w); i++ {
+		c := w[i]
+		switch {
+		case c >= 'a' && c <= 'z', c >= 'A' && c <= 'Z', c >= '0' && c <= '9':
+			sb.WriteByte(c)
+		default:
+			sb.WriteByte('-')
+		}
+	}
+	return sb.String()
+}
+
+// plantWord puts one vocabulary word into the path, a header value, a header name or a cookie,
+// in front of or behind the other header fields.
+func (g *genCtx) plantWord(q *rq) {
+	r := g.r
+	w := q.Word
+	if w == "" {
+		w = gen.Pick(r, mapWords)
+		q.Word = w
+	}
+	front := func(h hf) {
+		if len(q.Hdr) == 0 {
+			q.Hdr = append(q.Hdr, h)
+			return
+		}
+		q.Hdr = append(q.Hdr[:1], append([]hf{h}, q.Hdr[1:]...)...)
+	}
+	for i, n := 0, 1+r.Intn(2); i < n; i++ {
+		switch r.Intn(6) {
+		case 0:
+			if q.Line != "" {
+				q.Line = strings.Replace(q.Line, "/ks", "/ks/"+wordSlug(w), 1)
+			} else if strings.HasPrefix(q.Target, "/ks?") {
+				q.Target = "/ks/" + wordSlug(w) + q.Target[3:]
+			}
+		case 1:
+			front(hf{"Keep-Alive", w})
+		case 2:
+			q.Hdr = append(q.Hdr, hf{"X-Tail", w})
+		case 3:
+			front(hf{"Cookie", "note=" + wordSlug(w) + "; a=b"})
+		case 4:
+			q.Hdr = append(q.Hdr, hf{"Cookie", "a=b; last=" + wordSlug(w)})
+		default:
+			front(hf{"X-" + wordSlug(w), "1"})
+		}
+	}
 }
 
 // ---------------------------------------------------------------------------------------------
